@@ -1,30 +1,82 @@
 #![allow(unused, non_snake_case, non_upper_case_globals)]
 use vstd::prelude::*;
 verus! {
+// ---- include lib/stdspecs.vrs ----
+// Specifications of core integer methods that vstd 0.2026.09.13 does not provide (trusted; each mirrors the std documentation).
+// Included by every unit so that an edited body that starts using one of them is still decided.
+pub assume_specification[ i8::div_euclid ](x: i8, y: i8) -> (r: i8) requires y != 0, !(x == i8::MIN && y == -1), ensures y > 0 ==> r as int == (x as int) / (y as int);
+pub assume_specification[ i8::rem_euclid ](x: i8, y: i8) -> (r: i8) requires y != 0, !(x == i8::MIN && y == -1), ensures y > 0 ==> r as int == (x as int) % (y as int), y < 0 ==> r as int == (x as int) % (-(y as int));
+pub assume_specification[ i8::abs ](x: i8) -> (r: i8) requires x != i8::MIN, ensures r as int == (if x < 0 { -(x as int) } else { x as int });
+pub assume_specification[ i8::signum ](x: i8) -> (r: i8) ensures r == (if x > 0 { 1int } else if x < 0 { -1int } else { 0int });
+pub assume_specification[ i8::is_positive ](x: i8) -> (r: bool) ensures r == (x > 0);
+pub assume_specification[ i8::is_negative ](x: i8) -> (r: bool) ensures r == (x < 0);
+pub assume_specification[ i8::checked_neg ](x: i8) -> (r: Option<i8>) ensures x == i8::MIN ==> r.is_none(), x != i8::MIN ==> r == Some((-x) as i8);
+pub assume_specification[ i8::saturating_add ](x: i8, y: i8) -> (r: i8) ensures i8::MIN <= x + y <= i8::MAX ==> r == x + y, x + y > i8::MAX ==> r == i8::MAX, x + y < i8::MIN ==> r == i8::MIN;
+pub assume_specification[ i8::saturating_sub ](x: i8, y: i8) -> (r: i8) ensures i8::MIN <= x - y <= i8::MAX ==> r == x - y, x - y > i8::MAX ==> r == i8::MAX, x - y < i8::MIN ==> r == i8::MIN;
+pub assume_specification[ i8::saturating_neg ](x: i8) -> (r: i8) ensures x == i8::MIN ==> r == i8::MAX, x != i8::MIN ==> r == -x;
+pub assume_specification[ i8::unsigned_abs ](x: i8) -> (r: u8) ensures r as int == (if x < 0 { -(x as int) } else { x as int });
+pub assume_specification[ i8::checked_abs ](x: i8) -> (r: Option<i8>) ensures x == i8::MIN ==> r.is_none(), x != i8::MIN ==> r == Some((if x < 0 { -x } else { x as int }) as i8);
+pub assume_specification[ i16::div_euclid ](x: i16, y: i16) -> (r: i16) requires y != 0, !(x == i16::MIN && y == -1), ensures y > 0 ==> r as int == (x as int) / (y as int);
+pub assume_specification[ i16::rem_euclid ](x: i16, y: i16) -> (r: i16) requires y != 0, !(x == i16::MIN && y == -1), ensures y > 0 ==> r as int == (x as int) % (y as int), y < 0 ==> r as int == (x as int) % (-(y as int));
+pub assume_specification[ i16::abs ](x: i16) -> (r: i16) requires x != i16::MIN, ensures r as int == (if x < 0 { -(x as int) } else { x as int });
+pub assume_specification[ i16::signum ](x: i16) -> (r: i16) ensures r == (if x > 0 { 1int } else if x < 0 { -1int } else { 0int });
+pub assume_specification[ i16::is_positive ](x: i16) -> (r: bool) ensures r == (x > 0);
+pub assume_specification[ i16::is_negative ](x: i16) -> (r: bool) ensures r == (x < 0);
+pub assume_specification[ i16::checked_neg ](x: i16) -> (r: Option<i16>) ensures x == i16::MIN ==> r.is_none(), x != i16::MIN ==> r == Some((-x) as i16);
+pub assume_specification[ i16::saturating_add ](x: i16, y: i16) -> (r: i16) ensures i16::MIN <= x + y <= i16::MAX ==> r == x + y, x + y > i16::MAX ==> r == i16::MAX, x + y < i16::MIN ==> r == i16::MIN;
+pub assume_specification[ i16::saturating_sub ](x: i16, y: i16) -> (r: i16) ensures i16::MIN <= x - y <= i16::MAX ==> r == x - y, x - y > i16::MAX ==> r == i16::MAX, x - y < i16::MIN ==> r == i16::MIN;
+pub assume_specification[ i16::saturating_neg ](x: i16) -> (r: i16) ensures x == i16::MIN ==> r == i16::MAX, x != i16::MIN ==> r == -x;
+pub assume_specification[ i16::unsigned_abs ](x: i16) -> (r: u16) ensures r as int == (if x < 0 { -(x as int) } else { x as int });
+pub assume_specification[ i16::checked_abs ](x: i16) -> (r: Option<i16>) ensures x == i16::MIN ==> r.is_none(), x != i16::MIN ==> r == Some((if x < 0 { -x } else { x as int }) as i16);
+pub assume_specification[ i32::div_euclid ](x: i32, y: i32) -> (r: i32) requires y != 0, !(x == i32::MIN && y == -1), ensures y > 0 ==> r as int == (x as int) / (y as int);
+pub assume_specification[ i32::rem_euclid ](x: i32, y: i32) -> (r: i32) requires y != 0, !(x == i32::MIN && y == -1), ensures y > 0 ==> r as int == (x as int) % (y as int), y < 0 ==> r as int == (x as int) % (-(y as int));
+pub assume_specification[ i32::abs ](x: i32) -> (r: i32) requires x != i32::MIN, ensures r as int == (if x < 0 { -(x as int) } else { x as int });
+pub assume_specification[ i32::signum ](x: i32) -> (r: i32) ensures r == (if x > 0 { 1int } else if x < 0 { -1int } else { 0int });
+pub assume_specification[ i32::is_positive ](x: i32) -> (r: bool) ensures r == (x > 0);
+pub assume_specification[ i32::is_negative ](x: i32) -> (r: bool) ensures r == (x < 0);
+pub assume_specification[ i32::checked_neg ](x: i32) -> (r: Option<i32>) ensures x == i32::MIN ==> r.is_none(), x != i32::MIN ==> r == Some((-x) as i32);
+pub assume_specification[ i32::saturating_add ](x: i32, y: i32) -> (r: i32) ensures i32::MIN <= x + y <= i32::MAX ==> r == x + y, x + y > i32::MAX ==> r == i32::MAX, x + y < i32::MIN ==> r == i32::MIN;
+pub assume_specification[ i32::saturating_sub ](x: i32, y: i32) -> (r: i32) ensures i32::MIN <= x - y <= i32::MAX ==> r == x - y, x - y > i32::MAX ==> r == i32::MAX, x - y < i32::MIN ==> r == i32::MIN;
+pub assume_specification[ i32::saturating_neg ](x: i32) -> (r: i32) ensures x == i32::MIN ==> r == i32::MAX, x != i32::MIN ==> r == -x;
+pub assume_specification[ i32::unsigned_abs ](x: i32) -> (r: u32) ensures r as int == (if x < 0 { -(x as int) } else { x as int });
+pub assume_specification[ i32::checked_abs ](x: i32) -> (r: Option<i32>) ensures x == i32::MIN ==> r.is_none(), x != i32::MIN ==> r == Some((if x < 0 { -x } else { x as int }) as i32);
+pub assume_specification[ i64::div_euclid ](x: i64, y: i64) -> (r: i64) requires y != 0, !(x == i64::MIN && y == -1), ensures y > 0 ==> r as int == (x as int) / (y as int);
+pub assume_specification[ i64::rem_euclid ](x: i64, y: i64) -> (r: i64) requires y != 0, !(x == i64::MIN && y == -1), ensures y > 0 ==> r as int == (x as int) % (y as int), y < 0 ==> r as int == (x as int) % (-(y as int));
+pub assume_specification[ i64::abs ](x: i64) -> (r: i64) requires x != i64::MIN, ensures r as int == (if x < 0 { -(x as int) } else { x as int });
+pub assume_specification[ i64::signum ](x: i64) -> (r: i64) ensures r == (if x > 0 { 1int } else if x < 0 { -1int } else { 0int });
+pub assume_specification[ i64::is_positive ](x: i64) -> (r: bool) ensures r == (x > 0);
+pub assume_specification[ i64::is_negative ](x: i64) -> (r: bool) ensures r == (x < 0);
+pub assume_specification[ i64::checked_neg ](x: i64) -> (r: Option<i64>) ensures x == i64::MIN ==> r.is_none(), x != i64::MIN ==> r == Some((-x) as i64);
+pub assume_specification[ i64::saturating_add ](x: i64, y: i64) -> (r: i64) ensures i64::MIN <= x + y <= i64::MAX ==> r == x + y, x + y > i64::MAX ==> r == i64::MAX, x + y < i64::MIN ==> r == i64::MIN;
+pub assume_specification[ i64::saturating_sub ](x: i64, y: i64) -> (r: i64) ensures i64::MIN <= x - y <= i64::MAX ==> r == x - y, x - y > i64::MAX ==> r == i64::MAX, x - y < i64::MIN ==> r == i64::MIN;
+pub assume_specification[ i64::saturating_neg ](x: i64) -> (r: i64) ensures x == i64::MIN ==> r == i64::MAX, x != i64::MIN ==> r == -x;
+pub assume_specification[ i64::unsigned_abs ](x: i64) -> (r: u64) ensures r as int == (if x < 0 { -(x as int) } else { x as int });
+pub assume_specification[ i64::checked_abs ](x: i64) -> (r: Option<i64>) ensures x == i64::MIN ==> r.is_none(), x != i64::MIN ==> r == Some((if x < 0 { -x } else { x as int }) as i64);
+pub assume_specification[ i128::div_euclid ](x: i128, y: i128) -> (r: i128) requires y != 0, !(x == i128::MIN && y == -1), ensures y > 0 ==> r as int == (x as int) / (y as int);
+pub assume_specification[ i128::rem_euclid ](x: i128, y: i128) -> (r: i128) requires y != 0, !(x == i128::MIN && y == -1), ensures y > 0 ==> r as int == (x as int) % (y as int), y < 0 ==> r as int == (x as int) % (-(y as int));
+pub assume_specification[ i128::abs ](x: i128) -> (r: i128) requires x != i128::MIN, ensures r as int == (if x < 0 { -(x as int) } else { x as int });
+pub assume_specification[ i128::signum ](x: i128) -> (r: i128) ensures r == (if x > 0 { 1int } else if x < 0 { -1int } else { 0int });
+pub assume_specification[ i128::is_positive ](x: i128) -> (r: bool) ensures r == (x > 0);
+pub assume_specification[ i128::is_negative ](x: i128) -> (r: bool) ensures r == (x < 0);
+pub assume_specification[ i128::checked_neg ](x: i128) -> (r: Option<i128>) ensures x == i128::MIN ==> r.is_none(), x != i128::MIN ==> r == Some((-x) as i128);
+pub assume_specification[ i128::saturating_add ](x: i128, y: i128) -> (r: i128) ensures i128::MIN <= x + y <= i128::MAX ==> r == x + y, x + y > i128::MAX ==> r == i128::MAX, x + y < i128::MIN ==> r == i128::MIN;
+pub assume_specification[ i128::saturating_sub ](x: i128, y: i128) -> (r: i128) ensures i128::MIN <= x - y <= i128::MAX ==> r == x - y, x - y > i128::MAX ==> r == i128::MAX, x - y < i128::MIN ==> r == i128::MIN;
+pub assume_specification[ i128::saturating_neg ](x: i128) -> (r: i128) ensures x == i128::MIN ==> r == i128::MAX, x != i128::MIN ==> r == -x;
+pub assume_specification[ i128::unsigned_abs ](x: i128) -> (r: u128) ensures r as int == (if x < 0 { -(x as int) } else { x as int });
+pub assume_specification[ i128::checked_abs ](x: i128) -> (r: Option<i128>) ensures x == i128::MIN ==> r.is_none(), x != i128::MIN ==> r == Some((if x < 0 { -x } else { x as int }) as i128);
+
 #[verifier::external_body]
 #[derive(Debug)]
 pub struct Error { _p: () }
 #[verifier::external_body]
 pub fn verif_err() -> Error { unimplemented!() }
 
-pub assume_specification[ i64::div_euclid ](x: i64, y: i64) -> (r: i64)
-    requires y != 0, !(x == i64::MIN && y == -1),
-    ensures y > 0 ==> r as int == (x as int) / (y as int);
-pub assume_specification[ i64::rem_euclid ](x: i64, y: i64) -> (r: i64)
-    requires y != 0, !(x == i64::MIN && y == -1),
-    ensures y > 0 ==> r as int == (x as int) % (y as int);
-pub assume_specification[ i32::div_euclid ](x: i32, y: i32) -> (r: i32)
-    requires y != 0, !(x == i32::MIN && y == -1),
-    ensures y > 0 ==> r as int == (x as int) / (y as int);
-pub assume_specification[ i32::rem_euclid ](x: i32, y: i32) -> (r: i32)
-    requires y != 0, !(x == i32::MIN && y == -1),
-    ensures y > 0 ==> r as int == (x as int) % (y as int);
-pub assume_specification[ i8::rem_euclid ](x: i8, y: i8) -> (r: i8)
-    requires y != 0, !(x == i8::MIN && y == -1),
-    ensures y > 0 ==> r as int == (x as int) % (y as int);
-pub assume_specification[ i8::abs ](x: i8) -> (r: i8)
-    requires x != i8::MIN,
-    ensures r as int == (if x < 0 { -(x as int) } else { x as int });
+// (std spec moved to lib/stdspecs.vrs: i64::div_euclid)
+// (std spec moved to lib/stdspecs.vrs: i64::rem_euclid)
+// (std spec moved to lib/stdspecs.vrs: i32::div_euclid)
+// (std spec moved to lib/stdspecs.vrs: i32::rem_euclid)
+// (std spec moved to lib/stdspecs.vrs: i8::rem_euclid)
+// (std spec moved to lib/stdspecs.vrs: i8::abs)
 pub assume_specification<T, E, F: FnOnce(E) -> T>[ Result::<T, E>::unwrap_or_else ](r: Result<T, E>, f: F) -> (res: T)
     requires r is Err ==> f.requires((r->Err_0,)),
     ensures r is Ok ==> res == r->Ok_0, r is Err ==> f.ensures((r->Err_0,), res);
@@ -232,40 +284,41 @@ pub proof fn lemma_wd()
     ensures wd(0) == 4, forall|e: int| #[trigger] wd(e + 1) == (if wd(e) == 7 { 1int } else { wd(e) + 1 }),
 {}
 
-// ---- include lib/itime_views.vrs ----
-// Views of the extracted itime structs in terms of lib/greg.vrs, plus the arithmetic lemmas
-// needed by the Neri-Schneider bodies.  Spec-only: no code from jiff.
-impl IDate {
-    pub open spec fn wf(&self) -> bool { in_range_ymd(self.year as int, self.month as int, self.day as int) }
-    pub open spec fn rd(&self) -> int { rd(self.year as int, self.month as int, self.day as int) }
-    pub open spec fn is_next_of(&self, p: &IDate) -> bool {
-        self.year == next_y(p.year as int, p.month as int, p.day as int)
-        && self.month == next_m(p.year as int, p.month as int, p.day as int)
-        && self.day == next_d(p.year as int, p.month as int, p.day as int)
-    }
-}
-impl IEpochDay {
-    pub open spec fn wf(&self) -> bool { -4371587 <= self.epoch_day <= 2932896 }
-}
-impl IWeekday {
-    pub open spec fn wf(&self) -> bool { 1 <= self.offset <= 7 }
-}
-impl ITime {
-    pub open spec fn wf(&self) -> bool {
-        0 <= self.hour <= 23 && 0 <= self.minute <= 59 && 0 <= self.second <= 59 && 0 <= self.subsec_nanosecond <= 999_999_999
-    }
-    pub open spec fn ns_of_day(&self) -> int {
-        self.hour * 3_600_000_000_000 + self.minute * 60_000_000_000 + self.second * 1_000_000_000 + self.subsec_nanosecond
-    }
-}
+// ---- lemmas over plain integers used by the units (moved here from itime_views.vrs so that units without the itime structs can include them)
 pub open spec fn nth_first_day(y: int, m: int, w: int) -> int { 1 + (w - wd(rd(y, m, 1))) % 7 }
 pub open spec fn nth_last_day(y: int, m: int, w: int) -> int { dim(y, m) - (wd(rd(y, m, dim(y, m))) - w) % 7 }
+/// x == 7*q + r with 0 <= r < 7 determines x % 7
+#[verifier::spinoff_prover]
+pub proof fn lemma_mod7(x: int, q: int, r: int)
+    requires x == 7 * q + r, 0 <= r < 7,
+    ensures x % 7 == r,
+{
+    assert(x == q * 7 + r);
+    vstd::arithmetic::div_mod::lemma_fundamental_div_mod_converse(x, 7, q, r);
+}
 #[verifier::spinoff_prover]
 pub proof fn lemma_wd_arith(e: int, w: int, k: int)
     requires 1 <= w <= 7,
     ensures wd(e + (w - wd(e)) % 7 + 7 * k) == w, wd(e - (wd(e) - w) % 7 - 7 * k) == w,
             0 <= (w - wd(e)) % 7 <= 6, 0 <= (wd(e) - w) % 7 <= 6,
-{}
+{
+    let a = (e + 3) % 7; let q = (e + 3) / 7;
+    vstd::arithmetic::div_mod::lemma_fundamental_div_mod(e + 3, 7);
+    vstd::arithmetic::div_mod::lemma_mod_bound(e + 3, 7);
+    assert(e + 3 == 7 * q + a && 0 <= a < 7 && wd(e) == a + 1);
+    // forward
+    let x1 = w - wd(e); let t1 = x1 % 7; let p1 = x1 / 7;
+    vstd::arithmetic::div_mod::lemma_fundamental_div_mod(x1, 7);
+    vstd::arithmetic::div_mod::lemma_mod_bound(x1, 7);
+    assert(x1 == 7 * p1 + t1 && 0 <= t1 < 7);
+    lemma_mod7(e + t1 + 7 * k + 3, q + k - p1, w - 1);
+    // backward
+    let x2 = wd(e) - w; let t2 = x2 % 7; let p2 = x2 / 7;
+    vstd::arithmetic::div_mod::lemma_fundamental_div_mod(x2, 7);
+    vstd::arithmetic::div_mod::lemma_mod_bound(x2, 7);
+    assert(x2 == 7 * p2 + t2 && 0 <= t2 < 7);
+    lemma_mod7(e - t2 - 7 * k + 3, q - k + p2, w - 1);
+}
 #[verifier::spinoff_prover]
 pub proof fn lemma_nth_day(y: int, m: int, w: int, k: int)
     requires 1 <= m <= 12, 1 <= w <= 7,
@@ -405,6 +458,33 @@ pub proof fn lemma_ns_final(e: int, c: int, z: int, ny: int, mm: int, dd: int)
     }
 }
 
+// ---- include lib/itime_views.vrs ----
+// Views of the extracted itime structs in terms of lib/greg.vrs, plus the arithmetic lemmas
+// needed by the Neri-Schneider bodies.  Spec-only: no code from jiff.
+impl IDate {
+    pub open spec fn wf(&self) -> bool { in_range_ymd(self.year as int, self.month as int, self.day as int) }
+    pub open spec fn rd(&self) -> int { rd(self.year as int, self.month as int, self.day as int) }
+    pub open spec fn is_next_of(&self, p: &IDate) -> bool {
+        self.year == next_y(p.year as int, p.month as int, p.day as int)
+        && self.month == next_m(p.year as int, p.month as int, p.day as int)
+        && self.day == next_d(p.year as int, p.month as int, p.day as int)
+    }
+}
+impl IEpochDay {
+    pub open spec fn wf(&self) -> bool { -4371587 <= self.epoch_day <= 2932896 }
+}
+impl IWeekday {
+    pub open spec fn wf(&self) -> bool { 1 <= self.offset <= 7 }
+}
+impl ITime {
+    pub open spec fn wf(&self) -> bool {
+        0 <= self.hour <= 23 && 0 <= self.minute <= 59 && 0 <= self.second <= 59 && 0 <= self.subsec_nanosecond <= 999_999_999
+    }
+    pub open spec fn ns_of_day(&self) -> int {
+        self.hour * 3_600_000_000_000 + self.minute * 60_000_000_000 + self.second * 1_000_000_000 + self.subsec_nanosecond
+    }
+}
+
 // ---- opaque model of the abbreviation storage (ABBREV: AsRef<str>) ----
 #[verifier::external_body]
 #[derive(Clone, Copy, Debug)]
@@ -478,9 +558,8 @@ pub assume_specification<T, P: FnOnce(&T) -> bool>[ Option::<T>::filter ](o: Opt
     requires o is Some ==> p.requires((&o->0,)),
     ensures o is None ==> r is None,
             o is Some ==> (exists|b: bool| p.ensures((&o->0,), b) && (if b { r == o } else { r is None }));
-pub assume_specification[ i32::is_negative ](x: i32) -> (r: bool) ensures r == (x < 0);
-pub assume_specification[ i32::saturating_neg ](x: i32) -> (r: i32)
-    ensures x == i32::MIN ==> r == i32::MAX, x != i32::MIN ==> r == -x;
+// (std spec moved to lib/stdspecs.vrs: i32::is_negative)
+// (std spec moved to lib/stdspecs.vrs: i32::saturating_neg)
 // ---- DST interval of one year (C03): exact specs of DstInfo::in_dst / ordered over the derived order ----
 pub open spec fn in_dst_spec(s: IDateTime, e: IDateTime, dt: IDateTime) -> bool {
     if dt_le(s, e) { dt_le(s, dt) && dt_lt(dt, e) } else { !(dt_le(e, dt) && dt_lt(dt, s)) }
@@ -906,6 +985,7 @@ pub const MAX: ITimestamp =
         ITimestamp { second: 253402207200, nanosecond: 999_999_999 };
 
 // @fn ITimestamp::from_second @src src/shared/util/itime.rs:41
+#[verifier::spinoff_prover]
 
     pub const fn from_second(second: i64) -> (r: ITimestamp)
     ensures
@@ -1040,6 +1120,7 @@ pub const MAX: IDateTime = IDateTime { date: IDate::MAX, time: ITime::MAX };
     }
 
 // @fn IDateTime::to_timestamp_checked @src src/shared/util/itime.rs:118
+#[verifier::spinoff_prover]
 
     pub fn to_timestamp_checked(
         &self,
@@ -1218,6 +1299,7 @@ pub const MAX: IEpochDay = IEpochDay { epoch_day: 2932896 };
     }
 
 // @fn IEpochDay::weekday @src src/shared/util/itime.rs:204
+#[verifier::spinoff_prover]
 
     pub const fn weekday(&self) -> (r: IWeekday)
     requires
@@ -1236,6 +1318,7 @@ pub const MAX: IEpochDay = IEpochDay { epoch_day: 2932896 };
     }
 
 // @fn IEpochDay::checked_add @src src/shared/util/itime.rs:220
+#[verifier::spinoff_prover]
 
     pub fn checked_add(&self, amount: i32) -> (r: Result<IEpochDay, Error>)
     requires
@@ -1288,6 +1371,7 @@ pub const MIN: IDate = IDate { year: -9999, month: 1, day: 1 };
 pub const MAX: IDate = IDate { year: 9999, month: 12, day: 31 };
 
 // @fn IDate::try_new @src src/shared/util/itime.rs:257
+#[verifier::spinoff_prover]
 
     pub fn try_new(
         year: i16,
@@ -1354,6 +1438,7 @@ pub const MAX: IDate = IDate { year: 9999, month: 12, day: 31 };
     }
 
 // @fn IDate::from_day_of_year_no_leap @src src/shared/util/itime.rs:327
+#[verifier::spinoff_prover]
 
     pub fn from_day_of_year_no_leap(
         year: i16,
@@ -1442,6 +1527,7 @@ pub const MAX: IDate = IDate { year: 9999, month: 12, day: 31 };
     }
 
 // @fn IDate::weekday @src src/shared/util/itime.rs:377
+#[verifier::spinoff_prover]
 
     pub const fn weekday(&self) -> (r: IWeekday)
     requires
@@ -1501,6 +1587,7 @@ pub const MAX: IDate = IDate { year: 9999, month: 12, day: 31 };
     }
 
 // @fn IDate::yesterday @src src/shared/util/itime.rs:429
+#[verifier::spinoff_prover]
 
     pub fn yesterday(self) -> (r: Result<IDate, Error>)
     requires
@@ -1525,6 +1612,7 @@ pub const MAX: IDate = IDate { year: 9999, month: 12, day: 31 };
     }
 
 // @fn IDate::tomorrow @src src/shared/util/itime.rs:451
+#[verifier::spinoff_prover]
 
     pub fn tomorrow(self) -> (r: Result<IDate, Error>)
     requires
@@ -1548,6 +1636,7 @@ pub const MAX: IDate = IDate { year: 9999, month: 12, day: 31 };
     }
 
 // @fn IDate::prev_year @src src/shared/util/itime.rs:472
+#[verifier::spinoff_prover]
 
     pub fn prev_year(self) -> (r: Result<i16, Error>)
     requires
@@ -1563,6 +1652,7 @@ pub const MAX: IDate = IDate { year: 9999, month: 12, day: 31 };
     }
 
 // @fn IDate::next_year @src src/shared/util/itime.rs:489
+#[verifier::spinoff_prover]
 
     pub fn next_year(self) -> (r: Result<i16, Error>)
     requires
@@ -1605,6 +1695,7 @@ pub const MAX: IDate = IDate { year: 9999, month: 12, day: 31 };
     }
 
 // @fn IDate::first_of_month @src src/shared/util/itime.rs:519
+#[verifier::spinoff_prover]
 
     pub fn first_of_month(&self) -> (r: IDate)
     ensures
@@ -1614,6 +1705,7 @@ pub const MAX: IDate = IDate { year: 9999, month: 12, day: 31 };
     }
 
 // @fn IDate::last_of_month @src src/shared/util/itime.rs:524
+#[verifier::spinoff_prover]
 
     pub fn last_of_month(&self) -> (r: IDate)
     requires
@@ -1669,6 +1761,7 @@ pub const MAX: ITime = ITime {
     };
 
 // @fn ITime::to_second @src src/shared/util/itime.rs:566
+#[verifier::spinoff_prover]
 
     pub const fn to_second(&self) -> (r: ITimeSecond)
     requires
@@ -1684,6 +1777,7 @@ pub const MAX: ITime = ITime {
     }
 
 // @fn ITime::to_nanosecond @src src/shared/util/itime.rs:575
+#[verifier::spinoff_prover]
 
     pub const fn to_nanosecond(&self) -> (r: ITimeNanosecond)
     requires
@@ -1728,6 +1822,7 @@ impl core::cmp::PartialOrd for ITimeSecond {
 
 impl ITimeSecond {
 // @fn ITimeSecond::to_time @src src/shared/util/itime.rs:593
+#[verifier::spinoff_prover]
 
     pub const fn to_time(&self) -> (r: ITime)
     requires
@@ -1777,6 +1872,7 @@ impl core::cmp::PartialOrd for ITimeNanosecond {
 
 impl ITimeNanosecond {
 // @fn ITimeNanosecond::to_time @src src/shared/util/itime.rs:616
+#[verifier::spinoff_prover]
 
     pub const fn to_time(&self) -> (r: ITime)
     requires
@@ -1832,6 +1928,7 @@ impl core::cmp::PartialOrd for IWeekday {
 
 impl IWeekday {
 // @fn IWeekday::from_monday_zero_offset @src src/shared/util/itime.rs:647
+#[verifier::spinoff_prover]
 
     pub const fn from_monday_zero_offset(offset: i8) -> (r: IWeekday)
     requires
@@ -1844,6 +1941,7 @@ impl IWeekday {
     }
 
 // @fn IWeekday::from_monday_one_offset @src src/shared/util/itime.rs:655
+#[verifier::spinoff_prover]
 
     pub const fn from_monday_one_offset(offset: i8) -> (r: IWeekday)
     requires
@@ -1856,6 +1954,7 @@ impl IWeekday {
     }
 
 // @fn IWeekday::from_sunday_zero_offset @src src/shared/util/itime.rs:663
+#[verifier::spinoff_prover]
 
     pub const fn from_sunday_zero_offset(offset: i8) -> (r: IWeekday)
     requires
@@ -1868,6 +1967,7 @@ impl IWeekday {
     }
 
 // @fn IWeekday::to_monday_zero_offset @src src/shared/util/itime.rs:680
+#[verifier::spinoff_prover]
 
     pub const fn to_monday_zero_offset(self) -> (r: i8)
     requires
@@ -1879,6 +1979,7 @@ impl IWeekday {
     }
 
 // @fn IWeekday::to_monday_one_offset @src src/shared/util/itime.rs:687
+#[verifier::spinoff_prover]
 
     pub const fn to_monday_one_offset(self) -> (r: i8)
     ensures
@@ -1888,6 +1989,7 @@ impl IWeekday {
     }
 
 // @fn IWeekday::since @src src/shared/util/itime.rs:708
+#[verifier::spinoff_prover]
 
     pub const fn since(self, other: IWeekday) -> (r: i8)
     requires
@@ -1908,6 +2010,7 @@ pub enum IAmbiguousOffset {
 }
 
 // @fn is_leap_year @src src/shared/util/itime.rs:725
+#[verifier::spinoff_prover]
 
 pub const fn is_leap_year(year: i16) -> (r: bool)
     ensures
@@ -1926,6 +2029,7 @@ pub const fn is_leap_year(year: i16) -> (r: bool)
 }
 
 // @fn days_in_year @src src/shared/util/itime.rs:733
+#[verifier::spinoff_prover]
 
 pub const fn days_in_year(year: i16) -> (r: i16)
     ensures
@@ -1939,6 +2043,7 @@ pub const fn days_in_year(year: i16) -> (r: i16)
 }
 
 // @fn days_in_month @src src/shared/util/itime.rs:743
+#[verifier::spinoff_prover]
 
 pub const fn days_in_month(year: i16, month: i8) -> (r: i8)
     requires
